@@ -14,22 +14,33 @@ Theorem C16_state_dict_isolated {T} {N : Num T} (h : heap T) (a : acc) : (a_loc 
     l <> a_loc a /\ hget h1 l = hget h (a_loc a) /\ hget h1 (a_loc a) = hget h (a_loc a) /\
     (forall v, hget (hset h1 (a_loc a) v) l = hget h (a_loc a)).
 Proof. exact (acc_state_dict_isolated h a). Qed.
+(* load_state_dict stores a deep copy too: the loaded accountant holds the saved history in a cell that is neither the list
+   inside the state_dict nor the source accountant's list, so in-place steps of the loaded accountant reach neither *)
 Theorem C16_accountant_roundtrip {T} {N : Num T} (h : heap T) (a b : acc) : (a_loc a < List.length h)%nat -> a_mech b = a_mech a ->
   let h1 := fst (acc_state_dict h a) in let d := snd (acc_state_dict h a) in
-  exists b', acc_load_state_dict b (Some d) = Ok b' /\ a_mech b' = a_mech a /\ hget h1 (a_loc b') = hget h (a_loc a).
+  exists h2 b' l, sd_get d "history" = Some (VLoc l) /\ acc_load_state_dict h1 b (Some d) = Ok (h2, b') /\ a_mech b' = a_mech a /\
+    hget h2 (a_loc b') = hget h (a_loc a) /\ a_loc b' <> l /\ a_loc b' <> a_loc a /\
+    (forall v, hget (hset h2 (a_loc b') v) l = hget h (a_loc a) /\ hget (hset h2 (a_loc b') v) (a_loc a) = hget h (a_loc a)).
 Proof. exact (acc_roundtrip h a b). Qed.
+(* one state_dict loaded into two accountants gives two independent ledgers *)
+Theorem C16_load_twice_isolated {T} {N : Num T} (h : heap T) (b1 b2 : acc) (d : asd) l m h1 c1 h2 c2 :
+  sd_get d "history" = Some (VLoc l) -> sd_get d "mechanism" = Some (VMech m) -> a_mech b1 = m -> a_mech b2 = m -> (l < List.length h)%nat ->
+  acc_load_state_dict h b1 (Some d) = Ok (h1, c1) -> acc_load_state_dict h1 b2 (Some d) = Ok (h2, c2) ->
+  a_loc c1 <> a_loc c2 /\ a_loc c1 <> l /\ a_loc c2 <> l /\ hget h2 (a_loc c1) = hget h l /\ hget h2 (a_loc c2) = hget h l /\
+  (forall v, hget (hset h2 (a_loc c1) v) (a_loc c2) = hget h l /\ hget (hset h2 (a_loc c1) v) l = hget h l).
+Proof. exact (acc_load_twice_isolated h b1 b2 d l m h1 c1 h2 c2). Qed.
 (* an empty / None / incomplete state, or one of another mechanism, is rejected *)
-Theorem C16_rejects_none (a : acc) : acc_load_state_dict a None = Err ValueError.
-Proof. exact (acc_load_rejects_none a). Qed.
-Theorem C16_rejects_empty (a : acc) : acc_load_state_dict a (Some []) = Err ValueError.
-Proof. exact (acc_load_rejects_empty a). Qed.
-Theorem C16_rejects_no_history (a : acc) m : acc_load_state_dict a (Some [("mechanism", VMech m)]) = Err ValueError.
-Proof. exact (acc_load_rejects_no_history a m). Qed.
-Theorem C16_rejects_no_mechanism (a : acc) l : acc_load_state_dict a (Some [("history", VLoc l)]) = Err ValueError.
-Proof. exact (acc_load_rejects_no_mechanism a l). Qed.
-Theorem C16_rejects_other_mechanism {T} {N : Num T} (h : heap T) (a b : acc) : a_mech b <> a_mech a ->
-  acc_load_state_dict b (Some (snd (acc_state_dict h a))) = Err ValueError.
-Proof. exact (acc_load_rejects_other_mechanism h a b). Qed.
+Theorem C16_rejects_none {T} (h : heap T) (a : acc) : acc_load_state_dict h a None = Err ValueError.
+Proof. exact (acc_load_rejects_none h a). Qed.
+Theorem C16_rejects_empty {T} (h : heap T) (a : acc) : acc_load_state_dict h a (Some []) = Err ValueError.
+Proof. exact (acc_load_rejects_empty h a). Qed.
+Theorem C16_rejects_no_history {T} (h : heap T) (a : acc) m : acc_load_state_dict h a (Some [("mechanism", VMech m)]) = Err ValueError.
+Proof. exact (acc_load_rejects_no_history h a m). Qed.
+Theorem C16_rejects_no_mechanism {T} (h : heap T) (a : acc) l : acc_load_state_dict h a (Some [("history", VLoc l)]) = Err ValueError.
+Proof. exact (acc_load_rejects_no_mechanism h a l). Qed.
+Theorem C16_rejects_other_mechanism {T} {N : Num T} (h h' : heap T) (a b : acc) : a_mech b <> a_mech a ->
+  acc_load_state_dict h' b (Some (snd (acc_state_dict h a))) = Err ValueError.
+Proof. exact (acc_load_rejects_other_mechanism h h' a b). Qed.
 Theorem C16_checkpoint_rejects_other_mechanism {T} {N : Num T} {P I} (y y0 : sys T P I) (o n c : bool) : y_mech y0 <> y_mech y ->
   load_ckpt y0 (save_ckpt y o n c) o n c = Err ValueError.
 Proof. exact (load_rejects_other_mechanism y y0 o n c). Qed.
@@ -71,6 +82,7 @@ Proof. vm_compute. repeat split. discriminate. Qed.
 
 Print Assumptions C16_state_dict_isolated.
 Print Assumptions C16_accountant_roundtrip.
+Print Assumptions C16_load_twice_isolated.
 Print Assumptions C16_rejects_none.
 Print Assumptions C16_rejects_empty.
 Print Assumptions C16_rejects_no_history.
